@@ -103,7 +103,7 @@ func c16r1(c *an.Ctx) {
 		late := false
 		an.Instrs(fn, func(in ssa.Instruction) {
 			if st, ok := in.(*ssa.Store); ok {
-				if fv := an.PathOf(st.Addr).Last(); fv != nil && fv.Name() == "err" && an.CanReach(closeAt, in) {
+				if fv := an.PathOf(st.Addr).Last(); fv != nil && nameOf(fv) == "err" && an.CanReach(closeAt, in) {
 					late = true
 				}
 			}
@@ -243,7 +243,7 @@ func c16r2(c *an.Ctx) {
 	okRead2 := false
 	an.Instrs(pr, func(in ssa.Instruction) {
 		if call, ok := in.(*ssa.Call); ok && call.Common().IsInvoke() && call.Common().Method.Name() == "Read" {
-			if p := an.PathOf(call.Common().Value); p.Last() != nil && p.Last().Name() == "Reader" {
+			if p := an.PathOf(call.Common().Value); p.Last() != nil && nameOf(p.Last()) == "Reader" {
 				okRead2 = true
 			}
 		}
